@@ -6,7 +6,7 @@ package main
 //   enfEntry                     : the assignments generator.enterNextFinallyFrame makes when it enters a finally block
 //   enfRetakesPointer            : `tf = &vm.tryStack[len(vm.tryStack)-1]` follows the restoreStacks call (4bb92ea)
 //   step1ContinuesWhenNotHalted  : the returning loop of generator.step1 has `if !vm.halted() { continue }` (5eca78e)
-//   throwPrelude / returnPrelude : the start/completed prelude of generatorObject.throw / _return:
+//   throwPrelude / returnPrelude / nextPrelude : the start/completed prelude of generatorObject.throw / _return / next:
 //                                  (state tested, action) pairs in order
 // Anything outside the shapes understood here is an error ("tie not regenerable").
 
@@ -187,6 +187,8 @@ func c09Prelude(p *Pkg, name string) ([][2]int, []string, error) {
 			act = 1
 		case a == "return g.val.runtime.createIterResultObject(v, true)":
 			act = 2
+		case a == "return g.val.runtime.createIterResultObject(_undefined, true)":
+			act = 3
 		}
 		if act < 0 {
 			return nil, nil, fmt.Errorf("generatorObject.%s: unknown action %s", name, a)
@@ -242,7 +244,7 @@ func genC09(p *Pkg) (map[string]string, error) {
 		return nil, err
 	}
 	fmt.Fprintf(&b, "def step1ContinuesWhenNotHalted : Bool := %v\n\n", cont)
-	for _, f := range []struct{ fn, lean string }{{"throw", "throwPrelude"}, {"_return", "returnPrelude"}} {
+	for _, f := range []struct{ fn, lean string }{{"throw", "throwPrelude"}, {"_return", "returnPrelude"}, {"next", "nextPrelude"}} {
 		xs, txt, err := c09Prelude(p, f.fn)
 		if err != nil {
 			return nil, err
